@@ -61,6 +61,13 @@ pub fn run(ctx: &mut Ctx) {
         } else {
             e
         };
+        // very rarely: an element whose own encoding is beyond 16 MiB
+        let e = if case % 20011 == 9 {
+            ctx.count("huge_elements");
+            Envelope::new(format!("holder-{}", case)).add_assertion("blob", Envelope::new(dcbor::ByteString::from(vec![(case % 251) as u8; 17 << 20])))
+        } else {
+            e
+        };
         let t = tree_of(&e);
         ctx.nontrivial(t.shape_hash());
         let flat = t.flatten();
